@@ -37,7 +37,7 @@ ASSUMPTIONS = [
 DECIDING_MONITORS = ("inject:operands-compared",)
 CASE_TIMEOUT = 600
 SHARD_SIZE = 1
-USE_REACH = False
+USE_REACH = True
 
 STRIDES = {"quick": 1, "thorough": 16}
 QUICK_STRIDES = {"polygon ^ polygon (crossing)": 10, "polygon - polygon (crossing)": 5, "connected & simple (contained)": 4,
@@ -206,6 +206,10 @@ def enumerate_op(case, ctx, opname, build, run, mode, stride, offset, sample=Non
             return 0, 0
         twins = [battery(o) for o in build()]
         ks = list(range(1 + offset, total + 1, stride))
+        if sample == "auto":
+            # thorough: every boundary of operations with up to ~8000 boundaries; beyond that, per
+            # stride, the first occurrence of every site plus 400 sampled boundaries
+            sample = None if len(ks) <= 500 else 400
         if sample is not None and len(ks) > sample:
             # first occurrence (within this stride) of every distinct site + a seeded sample
             first = {}
@@ -409,7 +413,7 @@ def case(ctx):
         if what == "line":
             total, fired = enumerate_op(case, ctx, name, build, run, "line", 4, off, sample=400)
         else:
-            sample = QUICK_SAMPLE if tier == "quick" else (250 if name.startswith("circle") else None)
+            sample = QUICK_SAMPLE if tier == "quick" else (250 if name.startswith("circle") else "auto")
             total, fired = enumerate_op(case, ctx, name, build, run, "call", stride, off, sample=sample)
     case.spec["boundaries"] = total
     case.spec["injected"] = fired
